@@ -716,7 +716,18 @@ func (fr *Frame) logCall(st, pre *State, key, recv string, args []Val, res []Val
 			break
 		}
 	}
-	idx := vc.logEffect(st, key, recv, strs, errT, payload, ptr, b1, from)
+	// the first integer argument (e.g. the status handed to os.Exit)
+	i1 := ""
+	for _, a := range args {
+		if a.T == nil || a.Re != nil || a.Clo != nil || a.Term == "" {
+			continue
+		}
+		if b, ok := a.T.Underlying().(*types.Basic); ok && b.Info()&types.IsInteger != 0 && vc.S.Sort(a.T) == "Int" {
+			i1 = vc.term(pre, a)
+			break
+		}
+	}
+	idx := vc.logEffect(st, key, recv, strs, errT, payload, ptr, b1, from, i1)
 	for _, r := range res {
 		if r.T == nil || r.Term == "" {
 			continue
